@@ -674,6 +674,7 @@ def generate(spec):
              % (spec["source"], spec["function"], tr.fn_lines[0], tr.fn_lines[1], tr.fn_sha[:16]))
     for n in tr.notes:
         L.append("--   " + n)
+    L.append("set_option autoImplicit false")        # a misspelt name in the spec must be an error, not a new variable
     L.append("set_option linter.unusedVariables false")
     L.append("set_option linter.unusedSimpArgs false")
     L.append("")
@@ -692,9 +693,10 @@ def generate(spec):
         names["post"].append(_let_name(l)); L.append("    let %s   -- spec" % l.strip())
     concl = spec["conclusion"]
     concl_lines = concl if isinstance(concl, list) else [concl]
-    for k, c in enumerate(concl_lines):
-        L.append("    " + c + (" := by" if k == len(concl_lines) - 1 else ""))
-    stmt_end = len(L)
+    for c in concl_lines:
+        L.append("    " + c)
+    stmt_end = len(L)            # errors located up to this line are errors of the STATEMENT, later ones of the PROOF
+    L.append("  := by")          # on its own line: Lean reports `unsolved goals` at the `by` token
     allnames = names["params"] + names["gen"] + names["post"]
     if allnames:
         L.append("  intro " + " ".join(allnames))
